@@ -759,16 +759,29 @@ class Run:
             Overlay().on_message(None, payload)
 
     async def _tm_sd(self):
-        """the inherited TaskManager.shutdown_task_manager() on the request cache object (generic teardown glue): same
-        `_shutdown` flag, all timers cancelled; requests stay registered (claimable) until RequestCache.shutdown()"""
+        """the inherited TaskManager.shutdown_task_manager() on the request cache object (generic teardown glue).  It
+        raises the SAME `_shutdown` flag (`add` answers "Dropping … due to shutdown!"), so for C10 it is a shutdown:
+        afterwards no timeout fires, nothing is added, tied futures are cancelled and the requests are gone."""
         self.pre()
         t = self.now()
-        if not (self.sd or self.sd_tm):
-            for kk in self.outstanding.values():
-                self.observe_cancel(kk)
-        self.sd_tm = True
+        before = dict(self.outstanding)
+
+        def post():
+            for ident, k in before.items():
+                if any(not f.done() for f, _, _ in self.futs[k]):
+                    self.fail("RequestCache.shutdown_task_manager:futures-not-cancelled",
+                              f"shutdown_task_manager() shut the request cache down (flag raised, timers cancelled) but "
+                              f"left a managed future of the outstanding request {k} pending: nothing will ever "
+                              f"resolve it")
+        for kk in before.values():
+            self.observe_cancel(kk)
+        for ident, k in self.outstanding.items():
+            self.history.setdefault(k, []).append("dropped")
+            self.stats["dropped"] += 1
+        self.outstanding.clear()
+        self.sd = True
         self.stats["tm_shutdown"] = self.stats.get("tm_shutdown", 0) + 1
-        self.lazy.append((t, "tmshutdown", "done", None))
+        self.lazy.append((t, "tmshutdown", "done", post))
         try:
             await self.rc.shutdown_task_manager()
         except Exception as e:
